@@ -446,12 +446,7 @@ var c07ConfigCorpus = []string{
 }
 
 func c07ConfigCase(p *c07Prog, class string) Case {
-	before := c07NoAnswer
-	c := c07ConfigCaseInner(p, class)
-	if len(c.KF) > 0 {
-		c07NoAnswer = before
-	}
-	return c
+	return c07ConfigCaseInner(p, class)
 }
 
 func c07ConfigCaseInner(p *c07Prog, class string) Case {
@@ -502,12 +497,10 @@ func c07ConfigCaseInner(p *c07Prog, class string) Case {
 		c.ImplFail = []string{fmt.Sprintf("took %.1f ms, bound %v", float64(resp.DtNs)/1e6, c07Bound(p.Files))}
 	}
 	c.Impl = implJ
-	c.Coq = fmt.Sprintf("Config %s %s %s", c07Variant(), irCoq, impl)
-	if c07ThemeOverridesSignature(ir) {
-		c.KF = append(c.KF, c07KFThemeOverrides)
-	}
-	if c07VarsSpellingSignature(ir) {
-		c.KF = append(c.KF, c07KFVarsSpelling)
+	// the linked code is compared with the repaired variant of the model (coq/C07/Config.v, Fixed)
+	c.Coq = fmt.Sprintf("Config Fixed %s %s", irCoq, impl)
+	if c07ThemeOverridesSignature(ir) || c07VarsSpellingSignature(ir) {
+		c.Class += "+sig"
 	}
 	return c
 }
